@@ -33,8 +33,24 @@ int64_t sim_mix(int64_t a, const char *s, int64_t b, int64_t c) {
 extern void simk_kill_self(int sig);
 int64_t sim_die(int64_t code) { (void)code; simk_kill_self(9); return 0; }
 /* opaque handles cross the pipe as 64-bit values */
-int64_t sim_handle_new(int64_t x) { return (int64_t)0x7f0000000000ll + x * 4096 + 8; }
-int64_t sim_handle_get(int64_t h) { return (h - 0x7f0000000000ll - 8) / 4096; }
+/* A handle is only meaningful in the process that issued it (think FILE*): using it in another process is a wild
+ * pointer dereference there, modelled as SIGSEGV of the process that executes the call. */
+static struct { int64_t h; int pid; } handles[4096]; static int nhandles;
+int64_t sim_handle_new(int64_t x) {
+    int64_t h = (int64_t)0x7f0000000000ll + x * 4096 + 8;
+    SimProc *p = sim_cur_proc();
+    if (p && nhandles < 4096) { handles[nhandles].h = h; handles[nhandles].pid = p->pid; nhandles++; }
+    return h;
+}
+int64_t sim_handle_get(int64_t h) {
+    SimProc *p = sim_cur_proc();
+    if (p) {
+        bool mine = false;
+        for (int i = 0; i < nhandles; i++) if (handles[i].h == h && handles[i].pid == p->pid) mine = true;
+        if (!mine) { simk_kill_self(11); return 0; }
+    }
+    return (h - 0x7f0000000000ll - 8) / 4096;
+}
 /* mixed signature: the float arrives as its bit pattern in a general register, the result is returned the same way */
 int64_t sim_mixf(int64_t a, int64_t fbits, const char *s) { double f; memcpy(&f, &fbits, 8); double r = (double)a * 0.5 + f + (double)strlen(s); int64_t rb; memcpy(&rb, &r, 8); return rb; }
 char *sim_mkstr(int64_t n) {
@@ -88,8 +104,8 @@ static const char *PRELUDE =
 "}\n";
 
 typedef struct Step { int kind; long a, b; } Step;
-enum { ST_INT = 0, ST_FLOAT, ST_BOOL, ST_STR, ST_STRLEN, ST_ARR, ST_FARR, ST_SARR, ST_MIX, ST_VOID, ST_MKSTR, ST_MKARR, ST_SQRT, ST_OPAQUE, ST_MIXF, ST_NKINDS };
-static const char *st_name[] = { "id_int", "id_float", "id_bool", "id_str", "strlen", "id_arr", "id_farr", "id_sarr", "mix", "void", "mkstr", "mkarr", "sqrt_pow", "opaque", "mixf" };
+enum { ST_INT = 0, ST_FLOAT, ST_BOOL, ST_STR, ST_STRLEN, ST_ARR, ST_FARR, ST_SARR, ST_MIX, ST_VOID, ST_MKSTR, ST_MKARR, ST_SQRT, ST_OPAQUE, ST_MIXF, ST_LOOP, ST_NKINDS };
+static const char *st_name[] = { "id_int", "id_float", "id_bool", "id_str", "strlen", "id_arr", "id_farr", "id_sarr", "mix", "void", "mkstr", "mkarr", "sqrt_pow", "opaque", "mixf", "loop" };
 static const long STRLENS[] = { 0, 1, 2, 255, 256, 4095, 4096, 8100, 8185, 8186, 8187, 8188, 8190, 8192, 8195, 16384, 65536 };
 static const long RESLENS[] = { 0, 1, 4089, 4090, 4091, 4092, 4096, 8200, 65536, 1048570, 1048571, 1048572, 1048580, 2000000 };
 static const long ARRLENS[] = { 0, 1, 2, 100, 454, 455, 456, 1000, 20000, 116507, 116509, 200000 };
@@ -128,6 +144,7 @@ static void emit_step(Buf *b, int i, Step *s) {
         break;
     case ST_OPAQUE: buf_printf(b, "    let h%d: Handle = (sim_handle_new %ld)\n    (println (+ %s (int_to_string (sim_handle_get h%d))))\n", i, s->a, pre, i); break;
     case ST_MIXF: buf_printf(b, "    (print %s)\n    (println (sim_mixf %s %s (mk %ld 3)))\n", pre, INTS[s->a % 8], FLOATS[s->b % 9], (s->a * 37) % 300); break;
+    case ST_LOOP: buf_printf(b, "    let mut lk%d: int = 0\n    let mut la%d: int = 0\n    while (< lk%d %ld) {\n        set la%d (+ la%d (sim_id_int (- 0 lk%d)))\n        set lk%d (+ lk%d 1)\n    }\n    (println (+ %s (int_to_string la%d)))\n", i, i, i, s->a, i, i, i, i, i, pre, i); break;
     case ST_SQRT: buf_printf(b, "    (print %s)\n    (println (sqrt %s))\n    (print %s)\n    (println (pow %s 2.0))\n", pre, FLOATS[s->a], pre, FLOATS[s->b]); break;
     }
 }
@@ -154,10 +171,10 @@ static void gen_src(CPlan *P, Buf *src) {
 enum { FS_BEFORE_READY = 0, FS_AFTER_READY, FS_REQ_READ, FS_BEFORE_REPLY, FS_MID_REPLY, FS_EXEC_FAIL, FS_NSTEPS };
 static const char *fs_name[] = { "before_ready", "after_ready", "on_request_read", "before_reply", "mid_reply", "exec_fail" };
 enum { FK_EXIT0 = 0, FK_EXIT1, FK_KILL, FK_CLOSE_IN, FK_CLOSE_OUT, FK_SHORT_HDR, FK_BAD_VERSION, FK_BAD_TYPE, FK_OVERSIZE,
-       FK_SHORT_PAYLOAD, FK_UNDEC_STRLEN, FK_UNDEC_ARRCOUNT, FK_UNDEC_TAG, FK_UNDEC_STRLEN_WRAP, FK_UNDEC_NESTED, FK_NKINDS };
+       FK_SHORT_PAYLOAD, FK_UNDEC_STRLEN, FK_UNDEC_ARRCOUNT, FK_UNDEC_TAG, FK_UNDEC_STRLEN_WRAP, FK_UNDEC_NESTED, FK_UNDEC_DEEP, FK_NKINDS };
 static const char *fk_name[] = { "exit0", "exit1", "sigkill", "close_stdin", "close_stdout", "short_header", "bad_version", "bad_type",
                                  "oversize_len", "short_payload", "undecodable_strlen", "undecodable_arrcount", "unknown_tag",
-                                 "undecodable_strlen_wrap", "undecodable_nested_array" };
+                                 "undecodable_strlen_wrap", "undecodable_nested_array", "undecodable_deep_nesting" };
 typedef struct Cell { int step, kind; } Cell;
 static Cell cells[128]; static int ncells;
 static void cells_init(void) {
@@ -198,7 +215,7 @@ static void plan_gen(CPlan *P, uint64_t seed, const RunOpts *o) {
         Cell c = cells[seed % (uint64_t)ncells];     /* every cell is visited round-robin; the rest is seeded */
         P->fstep = c.step; P->fkind = c.kind; P->fk = 1 + (int)sim_rndn(3);
         /* size class of the faulted call: copbig's calls need heap buffers for request and reply */
-        snprintf(P->prog, sizeof P->prog, "%s", sim_rndn(3) == 0 ? "copbig" : "copcalls"); P->tok = (int)sim_rndn(8);
+        { uint32_t q = sim_rndn(6); snprintf(P->prog, sizeof P->prog, "%s", q < 2 ? "copbig" : q == 2 ? "cophandle" : "copcalls"); } P->tok = (int)sim_rndn(8);
         /* only after a COMPLETE (if garbled) message: a peer that sends half a message and then stalls with the pipe
          * open cannot be told from a slow peer and is outside the property's fault list */
         P->linger = ((c.kind >= FK_BAD_VERSION && c.kind != FK_SHORT_PAYLOAD && c.kind != FK_UNDEC_TAG) || c.kind == FK_CLOSE_IN || c.kind == FK_CLOSE_OUT) && sim_rndn(3) == 0;   /* a co-process that closes its pipes need not be dying: with linger it closes BOTH and stays alive (one pipe left open and unread would be the silent-stall case that is out of scope) */
@@ -227,6 +244,8 @@ static void plan_gen(CPlan *P, uint64_t seed, const RunOpts *o) {
         case ST_SQRT: s->a = sim_rndn(9); s->b = sim_rndn(9); break;
         case ST_OPAQUE: s->a = sim_rndn(1000000); break;
         case ST_MIXF: s->a = sim_rndn(64); s->b = sim_rndn(9); break;
+        /* many calls in one session: counters, sequence numbers and descriptors that only wrap or run out after tens of thousands of requests */
+        case ST_LOOP: s->a = sim_rndn(quick ? 24 : 6) == 0 ? 65500 + (long)sim_rndn(5000) : 100 + (long)sim_rndn(3000); break;
         }
     }
     sim_seed(save);
@@ -385,6 +404,16 @@ static long c16_write_filter(SimProc *p, SimFile *f, const uint8_t *buf, size_t 
         case FK_BAD_VERSION: h[0] = (uint8_t)(COP_PROTO_VERSION + 1); buf_put(repl, h, sizeof h); J.fired = true; break;
         case FK_BAD_TYPE: h[1] = 0x7f; buf_put(repl, h, sizeof h); J.fired = true; break;
         case FK_OVERSIZE: { uint32_t big = (uint32_t)COP_MAX_PAYLOAD + 1 + (uint32_t)P->fk; memcpy(h + 4, &big, 4); buf_put(repl, h, sizeof h); J.fired = true; break; }
+        case FK_UNDEC_DEEP: {
+            /* a reply of ordinary size (about 1 MB, the limit is 16 MB) whose value is an array nested 60 000 * k levels deep */
+            uint32_t depth = 60000u * (uint32_t)P->fk, pn = depth * 6 + 9;
+            uint8_t *pl = malloc(pn);
+            for (uint32_t d = 0; d < depth; d++) { uint8_t *q = pl + (size_t)d * 6; q[0] = TAG_ARRAY; q[1] = TAG_ARRAY; uint32_t one = 1; memcpy(q + 2, &one, 4); }
+            pl[(size_t)depth * 6] = TAG_INT; memset(pl + (size_t)depth * 6 + 1, 1, 8);
+            h[1] = COP_MSG_FFI_RESULT; memcpy(h + 4, &pn, 4);
+            buf_put(repl, h, sizeof h); buf_put(repl, pl, pn); free(pl);
+            J.fired = true; cw_mode = 1;
+            break; }
         case FK_SHORT_PAYLOAD: case FK_UNDEC_STRLEN: case FK_UNDEC_ARRCOUNT: case FK_UNDEC_TAG: case FK_UNDEC_STRLEN_WRAP: case FK_UNDEC_NESTED: {
             /* replace the whole reply by a hand-made one; the cop's own payload is swallowed */
             uint8_t pl[40]; uint32_t pn = 0;
